@@ -511,6 +511,36 @@ example : (sortNames [nWrite, '-' :: nRead]).all validPerm = true ∧
     escOpt ['u'] = some (some ['u']) ∧
     escOpt (if ['d'] = ['@', 'a', 'l', 'l'] then [] else ['d']) = some (some ['d']) := by decide
 
+/-! ### the HTTP form of a row request: neither the row format nor `?user=` changes whose grants are consulted -/
+
+/-- rows.go hands `session.User` to every handler: the request is decided as `rowRequest` decides it, for every
+    row format and every `?user=` value -/
+theorem C43_row_http_eq (st : St) (u : Name) (adm : Bool) (idp : Act) (op : RowOp) (abstract : Bool)
+    (quser : Option Name) (d t : Name) :
+    rowRequestHTTP st u adm idp op abstract quser d t = rowRequest st u adm idp op d t := rfl
+
+/-- `?user=` never widens what a caller may do (nor narrows it), in either row format -/
+theorem C43_row_quser_irrelevant (st : St) (u : Name) (adm : Bool) (idp : Act) (op : RowOp) (a a' : Bool)
+    (q q' : Option Name) (d t : Name) :
+    rowRequestHTTP st u adm idp op a q d t = rowRequestHTTP st u adm idp op a' q' d t := rfl
+
+/-- a non-administrator's row request that is let through on a restricted DSN had the CALLER's DSN-level
+    authorization and the CALLER's table grant, whatever `?user=` names and whatever the row format -/
+theorem C43_row_http_pass_needs_grants (st : St) (u : Name) (idp : Act) (op : RowOp) (abstract : Bool)
+    (quser : Option Name) (d t : Name)
+    (hr : readDSN st d = some true) (hp : rowRequestHTTP st u false idp op abstract quser d t = .pass) :
+    (identityAuthorizes idp op.action = true ∨ authDSN st u d op.action = true) ∧
+    Recorded st.perms u d t [op.perm] :=
+  C43_row_pass_needs_grants st u idp op d t hr hp
+
+/-- why `rowAuthUser` must be the session's user: a handler that looked the table grant up for the user named by
+    `?user=` would let alice (DSN-level access, no table grant) read under bob's grant -/
+theorem C43_row_quser_override_counterexample :
+    let st := step (run St.init exHist) (.grantDSN ['a', 'l'] ['d'] ⟨true, false, false⟩ true)
+    readDSN st ['d'] = some true ∧ lookup st.perms ['a', 'l'] ['d'] ['t'] = [] ∧
+    rowRequestHTTP st ['a', 'l'] false Act.none .read true (some ['b', 'o', 'b']) ['d'] ['t'] = .forbidden ∧
+    rowRequestAs st ['a', 'l'] false Act.none .read ['b', 'o', 'b'] ['d'] ['t'] = .pass := by decide
+
 /-! ### the database DSN service: the DSN cache is a transparent memo -/
 
 theorem authorized_eq_core (st : St) (su : Name) (sa : Bool) (u d t : Name) (ops : List Name) :
@@ -892,5 +922,22 @@ example : (drun DSt.init exDbHist).rows.lookup ['d'] = some true ∧
 example : ∀ op ∈ exDbHist, ¬ op.dsnGrantsTo ['e'] ['d'] := by
   intro op h; simp only [exDbHist, List.mem_cons, List.not_mem_nil, or_false] at h
   rcases h with h | h | h | h | h | h | h <;> subst h <;> simp [DOp.dsnGrantsTo]
+
+/-! ### the HTTP form of a row request, database DSN service -/
+
+theorem C43_db_row_http_eq (s : DSt) (u : Name) (adm : Bool) (idp : Act) (op : RowOp) (abstract : Bool)
+    (quser : Option Name) (d t : Name) :
+    dbRowRequestHTTP s u adm idp op abstract quser d t = dbRowRequest s u adm idp op d t := rfl
+
+/-- after every history, a non-administrator's row request (any row format, any `?user=`) that is let through on a
+    DSN the store records as restricted had the CALLER's DSN-level authorization and the CALLER's table grant -/
+theorem C43_db_row_http_history (h : List DOp) (u : Name) (idp : Act) (op : RowOp) (abstract : Bool)
+    (quser : Option Name) (d t : Name)
+    (hr : (drun DSt.init h).rows.lookup d = some true)
+    (hp : (dbRowRequestHTTP (drun DSt.init h) u false idp op abstract quser d t).2 = .pass) :
+    (identityAuthorizes idp op.action = true ∨
+      ∃ v, dauthFind (drun DSt.init h).dauth u d = some v ∧ v.meets op.action = true) ∧
+    Recorded (drun DSt.init h).perms u d t [op.perm] :=
+  C43_db_row_history h u idp op d t hr hp
 
 end EgoVerif.C43
